@@ -889,7 +889,10 @@ func (c *Client) logs(ctx context.Context, url string, filter *glf.Filter, bm bl
 // When the block already has a hash (from its header) the two must agree:
 // a difference means the source changed between the requests.
 func setHash(b *eth.Block, h []byte) error {
-	if len(b.Header.Hash) > 0 && len(h) > 0 && !bytes.Equal(b.Header.Hash, h) {
+	if len(h) == 0 {
+		return nil
+	}
+	if len(b.Header.Hash) > 0 && !bytes.Equal(b.Header.Hash, h) {
 		const tag = "block %d hash mismatch: have %.4x got %.4x"
 		return fmt.Errorf(tag, b.Num(), b.Header.Hash, h)
 	}
